@@ -243,7 +243,14 @@ def dispatcher(ctx):
         arm = arms.get("init")
         if arm:
             c = [x for x in walk(arm["body"]) if x.get("k") == "mcall" and callee(x) == P + "parse_state_init_or_next"]
-            ok = len(c) == 1 and show(peel(c[0]["args"][2])).replace(" ", "") in ('(op=="init")',)
+            ok = False
+            if len(c) == 1:
+                fl = resolve(c[0]["args"][2])
+                sid = local_id(oa[0]["scrut"])
+                if fl.get("k") == "binary" and fl["op"] == "==" and sid is not None:
+                    for a_, b_ in ((fl["l"], fl["r"]), (fl["r"], fl["l"])):
+                        if is_local(a_, sid) and peel(b_).get("k") == "lit" and peel(b_).get("v") == "init":
+                            ok = True
             ctx.inst("R08.4", "dispatch:init-flag", ok, arm["sp"], "init/next lines must pass `op == \"init\"` as the is-init flag: %s" % (show(c[0]["args"][2]) if c else "?"))
         # output / bad / constraint push the referenced expression (token 2) to the right list
         arm = arms.get("output")
